@@ -120,9 +120,26 @@ def zoo():
     return _ZOO
 
 
+def _instantiate(e):
+    """`Entry.model()`; when a batch-norm layer has no running statistics (which `Entry.model` randomises) the module is
+    built the same way without touching them — the oracle then reports the layer"""
+    try:
+        return e.model()
+    except AttributeError:
+        torch.manual_seed(1000 + e.seed)
+        m = e.build()
+        with torch.no_grad():
+            for mod in m.modules():
+                if isinstance(mod, torch.nn.modules.batchnorm._BatchNorm) and mod.running_mean is not None:
+                    mod.running_mean.uniform_(-0.2, 0.2)
+                    mod.running_var.uniform_(0.6, 1.4)
+        m.eval()
+        return m
+
+
 def model_of(e):
     if e.name not in _MODELS:
-        _MODELS[e.name] = e.model()
+        _MODELS[e.name] = _instantiate(e)
     return _MODELS[e.name]
 
 
@@ -470,13 +487,13 @@ def _size_for(e, rng, deep):
     return ok
 
 
-def _check_entry(ctx, e, deep):
+def _check_entry(ctx, e, deep, search=False):
     rng = ctx.rng
     m = model_of(e)
     sizes = _size_for(e, rng, deep)
     if not sizes:
         return
-    sizes = sizes if deep else sizes[:1]
+    sizes = sizes[:2] if search else sizes if deep else sizes[:1]
     for (h, w) in sizes:
         seed = rng.randrange(2 ** 20)
         coils = 3
@@ -502,6 +519,8 @@ def _check_entry(ctx, e, deep):
         configs = [(k, pos, sc) for k in ((2, 3, 4) if deep else (2, 3)) for pos in range(k) for sc in (1.0, 1e4, 1e-4, 0.0, "dup")]
         if not deep:
             configs = rng.sample([c for c in configs if c[2] in (1.0, 1e4, 1e-4)], 4) + [(2, 1, 1e4), (2, rng.randrange(2), 0.0), (3, rng.randrange(3), "dup")]
+        elif search:
+            configs = rng.sample(configs, 14)
         for k, pos, sc in configs:
             if sc == "dup":
                 comps = [x] * (k - 1)
@@ -561,7 +580,7 @@ def _history_checks(ctx, e, m, x, single, h, w, seed, coils, deep):
             elif kind == "fresh-instance":
                 # another instance (same seed, hence the same weights), built after the first one has been used: class-level
                 # or module-level state written by the first instance would show here; then the first one again
-                m2 = e.model()
+                m2 = _instantiate(e)
                 out, exact = _run(e, m2, x), True
                 if deep and torch.equal(out, single):
                     _run(e, m2, _inputs(e, 2, h, w, seed + 3, scale=7.0, coils=coils))
@@ -620,9 +639,13 @@ def oracle(ctx: Ctx, deep: bool = False):
     if search:
         have = {e.name for e in entries}
         entries = entries + [e for e in Z.zoo(thorough=True) if e.name not in have and e.finding not in _UNUSABLE]
+    found = 0
     for e in entries:
-        yield from _stateful_modules(ctx, e)
-        yield from _check_entry(ctx, e, deep)
+        for v in itertools.chain(_stateful_modules(ctx, e), _check_entry(ctx, e, deep, search)):
+            found += v.key not in PENDING_FINDINGS
+            yield v
+        if search and found >= 6:
+            return                  # the failing-input search has its inputs
     # the normalisation functions themselves on float batches: statistics and normalised sample identical alone / batched,
     # and un-normalisation inverts
     from direct.nn.recurrent.recurrent import NormConv2dGRU
